@@ -37,6 +37,12 @@ Definition srv1_src_layout (h : sph) (step : option (Z * Z)) (fail : option (Z *
   ++ match step with None => [] | Some (w, v) => enum_layout w v end
   ++ match fail with None => [] | Some (w, c, d) => enum_layout w c ++ d end.
 
+Definition step_fits (step : option (Z * Z)) : Prop :=
+  match step with None => True | Some (w, v) => enum_fits w v end.
+Definition fail_fits (fail : option (Z * Z * bytes)) : Prop :=
+  match fail with None => True | Some (w, c, d) => enum_fits w c /\ wf_bytes d end.
+Definition has {A} (o : option A) : bool := match o with None => false | Some _ => true end.
+
 (* which parameters a report of subservice k = 1..8 carries: failure notice exactly for the
    even ones (2, 4, 6, 8), step ID exactly for the step reports (5, 6) *)
 Definition srv1_shape_ok (k : Z) (has_step has_fail : bool) : Prop :=
@@ -46,3 +52,11 @@ Definition srv1_shape_ok (k : Z) (has_step has_fail : bool) : Prop :=
 Definition srv1_layout (apid k seq version ref dest : Z) (stamp : bytes)
            (h : sph) (step : option (Z * Z)) (fail : option (Z * Z * bytes)) : bytes :=
   tm_layout 1 k apid seq 0 ref dest version stamp (srv1_src_layout h step fail).
+
+(* every argument of a report in range: the telemetry fields (service 1, message counter 0),
+   the telecommand header the request ID is taken from, the enumerations on their widths;
+   the whole packet fits the 16-bit length field *)
+Definition srv1_args_valid (apid k seq version ref dest : Z) (stamp : bytes)
+           (h : sph) (step : option (Z * Z)) (fail : option (Z * Z * bytes)) : Prop :=
+  tm_args_valid 1 k apid seq 0 ref dest version stamp (srv1_src_layout h step fail) /\
+  sph_valid h /\ step_fits step /\ fail_fits fail.
